@@ -43,18 +43,26 @@ CLAIMED['C01'] = dict(
          'decided by the correspondence + per-step monitor (legal transitions, immutability, illegal-call table from the docstrings), not by a theorem.'),
    note=SVC_NOTE, technique='Rocq proof (symbolic execution of handler programs) + trace-level correspondence', design='5/C01')
 CLAIMED['C02'] = dict(
-   text=('Theorems: id allocation max+1 always succeeds, is larger than every id present and raises the maximum by one (C02_fresh_ids, '
-         'C02_max_id_bounds_all); an unfinished operation of the same worker is returned unchanged. PARTIAL: exact count / sticky / '
-         'three-source order / surplus queued are stated (C02_sticky_full) but decided by correspondence + monitor over generated histories '
-         'with over- and under-delivering algorithms, on RAM and SQLite.'),
-   note=SVC_NOTE, technique='Rocq proof (list lemmas on id allocation) + trace-level correspondence + monitor', design='5/C02')
+   text=('Theorems (closed under the global context): id allocation max+1 always succeeds, is larger than every id present and raises the '
+         'maximum by one (C02_fresh_ids, C02_max_id_bounds_all); an unfinished operation of the same worker is returned unchanged; STICKY: a '
+         'worker that already holds at least `count` ACTIVE trials and has no unfinished operation gets exactly its first `count` ACTIVE '
+         'trials again in a finished operation without error, and neither trials nor study change (C02_sticky, for every state, count and '
+         'Pythia answer). PARTIAL: the three-source order (own ACTIVE, queued REQUESTED, new) and the queueing of surplus suggestions are '
+         'decided by correspondence + monitor over generated histories with over- and under-delivering algorithms and long studies (ids '
+         'beyond 10, 20), on RAM and SQLite.'),
+   note=SVC_NOTE, technique='Rocq proof (symbolic execution of the SuggestTrials program, list lemmas on id allocation) + trace-level correspondence + monitor', design='5/C02')
 CLAIMED['C06'] = dict(
-   text=('Theorems: the failure continuation finish_op always ends the RPC with a DONE operation carrying the error and stores exactly it '
-         '(C06_failure_is_reported_and_stored); a worker is answered without reaching the algorithm only from a stored done=false operation '
-         '(C06_wedge_needs_unfinished_operation); a kernel-evaluated failing history is not wedged. PARTIAL: "no RPC ever leaves an unfinished '
-         'operation" (C06_never_wedged_full) is decided by correspondence + monitor (after every step: no unfinished suggestion operation, no '
-         'ACTIVE early-stopping operation, algorithm reached again). Defects found and repaired by fix: commits (see known_findings.json fixed).'),
-   note=SVC_NOTE, technique='Rocq proof + trace-level correspondence + fault-sequence monitor', design='5/C06')
+   text=('Theorems (closed under the global context): the failure continuation finish_op always ends the RPC with a DONE operation carrying '
+         'the error and stores exactly it (C06_failure_is_reported_and_stored); a worker is answered without reaching the algorithm only from a '
+         'stored done=false operation (C06_wedge_needs_unfinished_operation); THE INVARIANT: for every state with unique study / operation '
+         'keys, every RPC and every Pythia answer (failure, short / empty / over-delivery, metadata that cannot be stored), an RPC that ends '
+         'normally leaves no suggestion operation unfinished, and so does every history of normally ending RPCs from the initial state '
+         '(C06_never_wedged, C06_never_wedged_history; proved by showing that every normally ending path of SuggestTrials after the creation '
+         'of its operation record runs finish_op - induction through the assign / create / remain loops - and that no other handler writes '
+         'an operation). PARTIAL: RPCs that end with an error after the record exists (only datastore errors, unreachable on well-formed '
+         'states) and the early-stopping operations are decided by correspondence + monitor (after every step: no unfinished suggestion '
+         'operation, no ACTIVE early-stopping operation, algorithm reached again). Defects found and repaired by fix: commits.'),
+   note=SVC_NOTE, technique='Rocq proof (state invariant by structural induction over handler programs) + trace-level correspondence + fault-sequence monitor', design='5/C06')
 CLAIMED['C07'] = dict(
    text=('Both backends are tied by trace-level correspondence to ONE model of the DataStore contract, so backend equivalence is equality of '
          'two runs of one function (C07_same_calls_same_observations); theorem C07_operation_numbering_agrees covers the place where they '
